@@ -191,10 +191,71 @@ def helper_set(j):
             only_alloc = all(re.search(r"^alloc::alloc::(alloc|alloc_zeroed|realloc|handle_alloc_error)$|core::alloc::Layout::|"
                                        r"(cordyceps::MpscQueue|diatomic_waker::DiatomicWaker)::(<.*>::)?new\w*$", c2)
                              for c2 in callees.get(path, ()) if ANCHOR_PRIMS.search(c2))
-            if not (private and sites == 1 and path not in taken and only_alloc):
+            # ... or it is higher-order: it applies a callable it was given (`mark_woken(slot, queue, || meta.waker.notify())`), so
+            # what it does depends on the site and it can only be judged there
+            higher_order = False
+            for blk in b["blocks"]:
+                t = blk["term"]
+                if t["k"] == "call" and t["func"]["k"] == "const" and "fn" in t["func"] and \
+                        t["func"]["fn"].get("def") in ("core::ops::FnOnce::call_once", "core::ops::FnMut::call_mut", "core::ops::Fn::call") and t["args"]:
+                    a0 = t["args"][0]
+                    if a0["k"] in ("move", "copy") and not a0["place"]["p"]:
+                        src = _trace_param(b, a0["place"]["l"])
+                        if src is not None:
+                            higher_order = True
+            # ... or data-parameterised the same way: it branches on the variant of (a field of) a parameter
+            # (`ReadyQueue { queue, task: None }.mark(slot)` notifies `task` only if there is one)
+            if not higher_order and _switches_on_param(b):
+                higher_order = True
+            if not (private and path not in taken and ((sites == 1 and only_alloc) or higher_order)):
                 continue          # (the reference-count and queue primitives' wrappers are roles of their own)
         helpers.add(path)
     return helpers, bodies
+
+
+def _trace_param(b, local):
+    """`local` is (a plain move / reborrow of) one of b's parameters -> that parameter's index, else None."""
+    for _ in range(6):
+        if 1 <= local <= b["arg_count"]:
+            return local
+        s_ = _single_assign(b, local)
+        if s_ is None:
+            return None
+        rv = s_["rv"]
+        if rv["k"] == "use" and rv["op"]["k"] in ("move", "copy") and not rv["op"]["place"]["p"]:
+            local = rv["op"]["place"]["l"]
+        elif rv["k"] == "ref" and [e["k"] for e in rv["place"]["p"]] in ([], ["deref"]):
+            local = rv["place"]["l"]
+        else:
+            return None
+    return None
+
+
+def _switches_on_param(b):
+    """Some switch of b tests the discriminant of a place rooted (through derefs / fields / plain copies) at a parameter."""
+    def rooted(local, depth=0):
+        if depth > 6:
+            return False
+        if 1 <= local <= b["arg_count"]:
+            return True
+        s_ = _single_assign(b, local)
+        if s_ is None:
+            return False
+        rv = s_["rv"]
+        if rv["k"] == "use" and rv["op"]["k"] in ("move", "copy") and all(e["k"] in ("deref", "field") for e in rv["op"]["place"]["p"]):
+            return rooted(rv["op"]["place"]["l"], depth + 1)
+        if rv["k"] == "ref" and all(e["k"] in ("deref", "field") for e in rv["place"]["p"]):
+            return rooted(rv["place"]["l"], depth + 1)
+        return False
+    for blk in b["blocks"]:
+        t = blk["term"]
+        if blk["cleanup"] or t["k"] != "switch" or t["discr"]["k"] not in ("move", "copy") or t["discr"]["place"]["p"]:
+            continue
+        d = _single_assign(b, t["discr"]["place"]["l"])
+        if d is not None and d["rv"]["k"] == "discr" and all(e["k"] in ("deref", "field") for e in d["rv"]["place"]["p"]) \
+                and rooted(d["rv"]["place"]["l"]):
+            return True
+    return False
 
 
 def _remap_place(p, off):
@@ -331,7 +392,8 @@ def _bind_generics(c, t):
                     (fn.get("local") and re.match(r"^[A-Z]\w*$", fn.get("self_ty") or "")) or
                     # a std trait's method on a type parameter (named, or an argument-position `impl Trait`): it is the
                     # crate's own impl when the call site binds the parameter to a crate type that has one
-                    (re.match(r"^([A-Z]\w*|impl .*)$", fn.get("self_ty") or "") and fn["self_ty"] in c["locals"][1:c["arg_count"] + 1])):
+                    (re.match(r"^([A-Z]\w*|impl .*)$", fn.get("self_ty") or "") and
+                     (fn["self_ty"] in c["locals"][1:c["arg_count"] + 1] or fn["self_ty"] in (GENERICS.get(c["path"]) or [])))):
                 names.add(fn["self_ty"])
     out = {}
     # parameters named at the call (`poll_settled::<F, KeepAll>(..)`), whether or not an argument's type mentions them
@@ -363,6 +425,57 @@ def _bind_generics(c, t):
     return out
 
 
+TYPES = {}          # the type table of the fact file being canonicalised (set by inline_facts)
+
+
+def _type_binding(c, t):
+    """{type parameter of callee c: the type the call names for it} -- every parameter, from the call's own generic arguments."""
+    gen = GENERICS.get(c["path"])
+    cfn = t["func"].get("fn") or {}
+    cargs = cfn.get("res_args") if cfn.get("res") == c["path"] else (cfn.get("def_args") if cfn.get("def") == c["path"] else None)
+    if not gen or not cargs or len(gen) != len(cargs):
+        return {}
+    return {g: a for g, a in zip(gen, cargs) if g != a and re.match(r"^[A-Z]\w*$", g) and not a.startswith("const ")}
+
+
+def _subst_type_key(key, tb, rx):
+    """The type string `key` of an inlined generic helper with its type parameters replaced by what the call site binds them to;
+    the substituted type is entered into the type table (built from the original's tree) so that ownership / drop reasoning
+    sees `<FuturesUnorderedBounded<F> as Stream>::Item`, not the helper's `<Q as Stream>::Item`."""
+    if not isinstance(key, str) or not rx.search(key):
+        return key
+    new = rx.sub(lambda m: tb[m.group(0)], key)
+    if new in TYPES or key not in TYPES:
+        return new
+    t = copy.deepcopy(TYPES[key])
+    if t.get("k") == "param" and t.get("name") in tb:
+        tgt = TYPES.get(tb[t["name"]])
+        if tgt is not None:
+            TYPES[new] = copy.deepcopy(tgt)
+        return new
+    TYPES[new] = t          # registered first: recursive types terminate
+    for k_, v_ in list(t.items()):
+        if k_ in ("k", "name", "local", "mut"):
+            continue
+        if isinstance(v_, str):
+            t[k_] = _subst_type_key(v_, tb, rx)
+        elif isinstance(v_, list):
+            t[k_] = [_subst_type_key(x_, tb, rx) if isinstance(x_, str) else x_ for x_ in v_]
+    return new
+
+
+def _subst_types_in(node, tb, rx):
+    if isinstance(node, dict):
+        for k_, v_ in node.items():
+            if k_ == "ty" and isinstance(v_, str):
+                node[k_] = _subst_type_key(v_, tb, rx)
+            elif k_ not in ("func", "span"):
+                _subst_types_in(v_, tb, rx)
+    elif isinstance(node, list):
+        for x_ in node:
+            _subst_types_in(x_, tb, rx)
+
+
 def _devirtualise(ct, bind):
     """A call of a crate-trait method on a generic parameter that the inline site binds to a concrete type is the impl's method."""
     f = ct["func"]
@@ -378,6 +491,7 @@ def _devirtualise(ct, bind):
             for it in im.get("items", []):
                 if it.endswith("::" + meth):
                     fn["res"] = it
+                    fn["res_local"] = True
                     fn["devirtualised"] = True
                     return
 
@@ -414,9 +528,16 @@ def inline_body(b, helpers, bodies, stats):
             # assignments to the destination itself); a projected destination receives a final move
             direct = not dest["p"]
             bind = _bind_generics(c, t)
+            tb = _type_binding(c, t)
+            rx = re.compile(r"(?<![\w:])(%s)(?![\w:])" % "|".join(re.escape(g_) for g_ in sorted(tb, key=len, reverse=True))) if tb else None
+            if tb:
+                for li in range(loff, len(b["locals"])):
+                    b["locals"][li] = _subst_type_key(b["locals"][li], tb, rx)
             for cj, cblk in enumerate(c["blocks"]):
                 nb = copy.deepcopy(cblk)
                 _remap_block(nb, loff, boff)
+                if tb:
+                    _subst_types_in(nb, tb, rx)
                 if direct:
                     _subst_local(nb, loff, dest["l"])
                 ct = nb["term"]
@@ -1073,30 +1194,70 @@ def _rewrite_capture_reads(c, k, new_local):
 
 
 def _fold_known_switches(c):
-    """switch on the discriminant of a local that is (a copy of / a read through a borrow of) a local built as a known field-less
-    variant: the terminator becomes a goto to the arm of that variant."""
+    """switch on the discriminant of a place that is known, from this body alone, to hold one variant: a local built once as that
+    variant (or a copy of it, or read through a shared borrow of it), or a field of a struct literal built once in this body.
+    The terminator becomes a goto to the arm of that variant."""
+    # a local that is borrowed mutably (or whose address is taken) may be rewritten through that borrow
+    mut_borrowed = set()
+    for blk in c["blocks"]:
+        for s_ in blk["stmts"]:
+            if s_["k"] == "assign" and ((s_["rv"]["k"] == "ref" and s_["rv"].get("mut")) or s_["rv"]["k"] == "rawptr"):
+                mut_borrowed.add(s_["rv"]["place"]["l"])
+
+    def referent(local):
+        """local is (a copy of) `&x` for a plain local x -> x"""
+        r_ = _single_assign(c, local)
+        while r_ is not None and r_["rv"]["k"] == "use" and r_["rv"]["op"]["k"] in ("move", "copy") and not r_["rv"]["op"]["place"]["p"]:
+            r_ = _single_assign(c, r_["rv"]["op"]["place"]["l"])
+        if r_ is not None and r_["rv"]["k"] == "ref" and not r_["rv"]["place"]["p"] and not r_["rv"].get("mut"):
+            return r_["rv"]["place"]["l"]
+        return None
+
+    def place_variant(pl, depth=0):
+        if depth > 8:
+            return None
+        kinds = [e["k"] for e in pl["p"]]
+        if not kinds:
+            return variant_of(pl["l"], depth + 1)
+        if kinds == ["deref"]:
+            x = referent(pl["l"])
+            return variant_of(x, depth + 1) if x is not None else None
+        if kinds in (["field"], ["deref", "field"]):
+            base = pl["l"]
+            if kinds[0] == "deref":
+                base = referent(base)
+                if base is None:
+                    return None
+            a_ = _single_assign(c, base)
+            while a_ is not None and a_["rv"]["k"] == "use" and a_["rv"]["op"]["k"] in ("move", "copy") and not a_["rv"]["op"]["place"]["p"] \
+                    and base not in mut_borrowed:
+                base = a_["rv"]["op"]["place"]["l"]
+                a_ = _single_assign(c, base)
+            if a_ is None or base in mut_borrowed or a_["rv"]["k"] != "aggregate" or a_["rv"].get("agg") != "adt":
+                return None
+            fi = pl["p"][-1]["i"]
+            ops_ = a_["rv"].get("ops") or []
+            if fi < len(ops_):
+                o_ = ops_[fi]
+                if o_["k"] == "const" and o_.get("variant"):
+                    return o_["variant"]
+                if o_["k"] in ("move", "copy"):
+                    return place_variant(o_["place"], depth + 1)
+        return None
+
     def variant_of(local, depth=0):
         if depth > 8:
             return None
         s_ = _single_assign(c, local)
-        if s_ is None:
+        if s_ is None or local in mut_borrowed:
             return None
         rv = s_["rv"]
-        if rv["k"] == "aggregate" and rv.get("agg") == "adt" and not rv.get("ops"):
-            return rv["variant"]
+        if rv["k"] == "aggregate" and rv.get("agg") == "adt" and rv.get("variant") is not None and _is_enum_variant(rv):
+            return rv["variant"]                # built as this variant (with or without payload) and never rewritten
         if rv["k"] == "use" and rv["op"]["k"] == "const" and rv["op"].get("variant"):
             return rv["op"]["variant"]          # a field-less enum constant passed directly (`try_push_at(End::Back, ..)`)
         if rv["k"] == "use" and rv["op"]["k"] in ("move", "copy"):
-            pl = rv["op"]["place"]
-            if not pl["p"]:
-                return variant_of(pl["l"], depth + 1)
-            if [e["k"] for e in pl["p"]] == ["deref"]:
-                # read through a reference: the reference's own definition
-                r_ = _single_assign(c, pl["l"])
-                while r_ is not None and r_["rv"]["k"] == "use" and r_["rv"]["op"]["k"] in ("move", "copy") and not r_["rv"]["op"]["place"]["p"]:
-                    r_ = _single_assign(c, r_["rv"]["op"]["place"]["l"])
-                if r_ is not None and r_["rv"]["k"] == "ref" and not r_["rv"]["place"]["p"]:
-                    return variant_of(r_["rv"]["place"]["l"], depth + 1)
+            return place_variant(rv["op"]["place"], depth + 1)
         return None
     n = 0
     for blk in c["blocks"]:
@@ -1106,17 +1267,7 @@ def _fold_known_switches(c):
         d = _single_assign(c, t["discr"]["place"]["l"])
         if d is None or d["rv"]["k"] != "discr":
             continue
-        dp = d["rv"]["place"]
-        if not dp["p"]:
-            v = variant_of(dp["l"])
-        elif [e["k"] for e in dp["p"]] == ["deref"]:
-            # discriminant(*r): the referent of r
-            r_ = _single_assign(c, dp["l"])
-            while r_ is not None and r_["rv"]["k"] == "use" and r_["rv"]["op"]["k"] in ("move", "copy") and not r_["rv"]["op"]["place"]["p"]:
-                r_ = _single_assign(c, r_["rv"]["op"]["place"]["l"])
-            v = variant_of(r_["rv"]["place"]["l"]) if (r_ is not None and r_["rv"]["k"] == "ref" and not r_["rv"]["place"]["p"]) else None
-        else:
-            continue
+        v = place_variant(d["rv"]["place"])
         if v is None:
             continue
         val = [x[0] for x in d["rv"]["variants"] if x[1] == v]
@@ -1131,6 +1282,12 @@ def _fold_known_switches(c):
         blk["term"] = {"k": "goto", "target": tgt, "span": t["span"], "folded": "discriminant known: " + v}
         n += 1
     return n
+
+
+def _is_enum_variant(rv):
+    """the aggregate names a variant of an enum (struct literals carry their own name as `variant`)"""
+    adt = rv.get("adt") or ""
+    return rv.get("variant") != adt.rsplit("::", 1)[-1] or adt.startswith("core::option::") or adt.startswith("core::result::")
 
 
 
@@ -1310,7 +1467,8 @@ def _only_captured(j, cpath):
 
 def inline_facts(j):
     """Inline helper calls in all function bodies of the fact JSON (in place).  Returns (helpers, stats)."""
-    global IMPLS, GENERICS
+    global IMPLS, GENERICS, TYPES
+    TYPES = j.get("types", {})
     IMPLS = j.get("impls", [])
     GENERICS = {f_["path"]: f_.get("generics") or [] for f_ in j.get("fns", [])}
     helpers, bodies = helper_set(j)
@@ -1318,7 +1476,12 @@ def inline_facts(j):
     stats = {}
     for b in j["bodies"]:
         if b["kind"] in ("Fn", "AssocFn", "Closure") and b["promoted"] is None:
+            n0 = len(b["blocks"])
             inline_body(b, helpers, originals, stats)
+            # a helper that branches on a field-less enum argument (`Stop::Backlog.pending(cx)`), read at a site that passes a
+            # constant, does what that constant selects
+            if len(b["blocks"]) != n0 and _fold_known_switches(b):
+                _prune_unreachable(b)
     # helpers with no remaining direct call are analysed in place only
     remaining = set()
     for b in j["bodies"]:
